@@ -85,7 +85,7 @@ def version_guard(ctx, filename, fetched, small_fields, big_fields, small_pred, 
 
 
 def run(chk, prog):
-    chk.rules_live = ["R1", "R2", "R3", "R4", "R5"]
+    chk.rules_live = ["R1", "R2", "R3", "R4", "R5", "R6"]
     chk.explanation = (
         "Static must-pass-through rules over the MIR control-flow graphs of load_timestamp/"
         "load_snapshot/load_targets/load_root: datastore.create(F) is unreachable from the entry "
@@ -253,26 +253,51 @@ def r4_r5(chk, prog):
     names = sorted(ctx.const_str_of(t.args[1]) or "?" for bb, t in rem)
     chk.require(names == ["snapshot.json", "timestamp.json"], "R4", ctx.fn, "remove-names",
                 "load_root removes %s, expected exactly timestamp.json and snapshot.json" % names)
-    # R5: the condition guarding the removal must depend on persisted state
+    # R5/R6: the condition guarding the removal
     if rem:
-        rb = set(bb for bb, _ in rem)
+        rb = sorted(bb for bb, _ in rem)
+        first = rb[0]
+        ctl = ctx.cfg.control_switches(first)
+        chk.require(bool(ctl), "R6", ctx.fn, "removal-is-conditional",
+                    "the stored timestamp/snapshot are deleted unconditionally", ctx.site(first))
         dep = False
-        nctl = 0
-        for b in ctx.body.blocks:
-            if b.cleanup or b.term is None or b.term.k != "switch":
-                continue
-            outs = ctx.cfg.succ[b.idx]
-            can = [bool(ctx.cfg.reach([e[1]], removed_blocks={b.idx}) & rb) for e in outs
-                   if ctx.body.blocks[e[1]].term.k != "unreachable"]
-            if not (any(can) and not all(can)):
-                continue
-            nctl += 1
-            for o in deep_origins(ctx, b.term.discr):
-                if o.kind == "call" and path_match(o.key[1], BYTES):
+        online = {"Timestamp", "Snapshot"}
+
+        def scoped(o):
+            """a read of the root document restricted to one online role"""
+            if is_call(o, "tough::schema::Root::keys"):
+                return True
+            if is_call(o, "std::collections::hash::map::HashMap::get"):
+                recv = ctx.origins.of_operand(o.extra.args[0])
+                return bool(recv) and all(r.fields[-2:] == ("signed", "roles") for r in recv)
+            return False
+
+        roles_seen = set()
+        unscoped = []
+        for sbb, edges in ctl:
+            sw = ctx.body.blocks[sbb].term
+            for o in deep_origins(ctx, sw.discr, 8, stop=scoped):
+                if is_call(o, BYTES):
                     dep = True
+                if scoped(o):
+                    key = o.extra.args[1]
+                    for r in ctx.origins.of_operand(key):
+                        if r.kind == "agg" and r.key[2].startswith("tough::schema::RoleType::"):
+                            roles_seen.add(r.key[2].split("::")[-1])
+                        else:
+                            roles_seen.add("?" + repr(r))
+                    continue
+                if o.fields[:1] == ("signed",) and len(o.fields) > 1:
+                    unscoped.append(o)
+        chk.require(roles_seen == online and not unscoped, "R6", ctx.fn, "removal-scope",
+                    "the decision to delete the stored timestamp/snapshot must depend only on what the "
+                    "roots authorise for the timestamp and snapshot roles; it reads roles %s and %s: a root "
+                    "that changes only other roles would void rollback protection"
+                    % (sorted(roles_seen), sorted(map(repr, unscoped))[:4]), ctx.site(first),
+                    detail="controlling branches=%d" % len(ctl))
         chk.require(dep, "R5", ctx.fn, "rotation-baseline",
                     "the decision to delete the stored timestamp/snapshot depends only on the shipped "
                     "root and the remote chain (no operand originates from Datastore::bytes): whenever "
                     "the shipped root predates a timestamp/snapshot key rotation the stored files are "
                     "deleted in EVERY cycle, so replaying an older signed timestamp/snapshot succeeds",
-                    ctx.site(sorted(rb)[0]), detail="controlling branches=%d" % nctl)
+                    ctx.site(first), detail="controlling branches=%d" % len(ctl))
